@@ -25,19 +25,25 @@ theorem stripe_table :
     Gen.Avx2Stripe.srcGuard = some 31 ∧ Dense.stride 32 1 ALIGN = 32 ∧ rowB 32 1 = 32 := by
   decide
 
-/-- the repaired block loop: with `src = seq + i`, `out = matrix + 32·i`, every load stays inside
-    the `L` symbols and every store is an aligned write inside the `stride` rows of the matrix -/
-theorem stripeLoop_safe (sz : Sizes) (L stride : Nat) (hsym : sz .sym = L) (hmat : sz .seqmat = stride * 32) :
-    ∀ (fuel i : Nat), Safe sz (stripeLoop (some 31) false L stride 32 fuel i i (i * 32)) := by
+/-- the block loop, for any loop condition under which the furthest load of a block that is entered
+    (`31·stride + i + 32`) stays inside the `L` symbols: with `src = seq + i`, `out = matrix + 32·i`,
+    every load is inside the symbol buffer and every store is an aligned write inside the `stride`
+    rows of the matrix -/
+theorem stripeLoop_safe_of (guard : Option Nat) (sz : Sizes) (L stride : Nat) (hsym : sz .sym = L)
+    (hmat : sz .seqmat = stride * 32)
+    (hload : ∀ i, i % 32 = 0 → i + 32 ≤ stride → stripeGuardOk guard L stride i = true →
+      31 * stride + i + 32 ≤ L) :
+    ∀ (fuel i : Nat), i % 32 = 0 → Safe sz (stripeLoop guard false L stride 32 fuel i i (i * 32)) := by
   obtain ⟨hl, hst, hsi, hoi, -, -, -, -⟩ := stripe_table
   intro fuel
   induction fuel with
-  | zero => intro i; exact Safe_nil sz
+  | zero => intro i _; exact Safe_nil sz
   | succ n ih =>
-    intro i
-    simp only [stripeLoop, Bool.false_eq_true, if_false, stripeGuardOk, decide_eq_true_eq]
-    by_cases hc : i + 32 ≤ stride ∧ 31 * stride + i + 32 ≤ L
+    intro i hi
+    simp only [stripeLoop, Bool.false_eq_true, if_false]
+    by_cases hc : i + 32 ≤ stride ∧ stripeGuardOk guard L stride i = true
     · rw [if_pos hc]
+      have hfar := hload i hi hc.1 hc.2
       rw [Safe_append, Safe_append]
       refine ⟨⟨?_, ?_⟩, ?_⟩
       · intro a ha
@@ -59,8 +65,15 @@ theorem stripeLoop_safe (sz : Sizes) (L stride : Nat) (hsym : sz .sym = L) (hmat
       · rw [hsi, hoi]
         have e : i * 32 + 32 * 32 = (i + 32) * 32 := by omega
         rw [e]
-        exact ih (i + 32)
+        exact ih (i + 32) (by omega)
     · rw [if_neg hc]; exact Safe_nil sz
+
+/-- the repaired block loop (`&& 0x1f * src_stride + i + 32 <= length`) -/
+theorem stripeLoop_safe (sz : Sizes) (L stride : Nat) (hsym : sz .sym = L) (hmat : sz .seqmat = stride * 32) :
+    ∀ (fuel i : Nat), i % 32 = 0 → Safe sz (stripeLoop (some 31) false L stride 32 fuel i i (i * 32)) :=
+  stripeLoop_safe_of (some 31) sz L stride hsym hmat (by
+    intro i _ _ hg
+    simpa [stripeGuardOk] using hg)
 
 /-- **C06, striping**: for every sequence length, every access of the (repaired) AVX2 striping
     kernel — loop condition, load and store tables regenerated from the source — is inside the symbol
@@ -72,7 +85,7 @@ theorem stripe_avx2_inbounds (L : Nat) : Safe (stripeSizes L) (stripeAvx2 L) := 
   · rw [if_pos h0]; exact Safe_nil _
   · rw [if_neg h0, hguard, hstrict, hstride]
     have := stripeLoop_safe (stripeSizes L) L ((L + 31) / 32) rfl (by show (L + 31) / 32 * rowB 32 1 = _; rw [hrow])
-      ((L + 31) / 32 + 1) 0
+      ((L + 31) / 32 + 1) 0 (Nat.zero_mod 32)
     simpa using this
 
 /-- **the defect found in the unchanged code** (loop condition `i + 32 <= src_stride` only): for 993
@@ -83,6 +96,74 @@ theorem stripe_avx2_asIs_counterexample : ¬ Safe (stripeSizes 993) (stripeAvx2W
 /-- the offending access is the one AddressSanitizer reports (`READ of size 32` at the last load) -/
 example : (firstBad (stripeSizes 993) (stripeAvx2With none 993)) = some ⟨.sym, 992, 32, .read, 1⟩ := by
   decide
+
+/-- in the unchanged loop (`while i + 32 <= src_stride` only) the last load of block `n` is executed
+    whenever `n + 1` complete blocks of rows exist -/
+theorem stripeLoop_asIs_mem (L stride : Nat) :
+    ∀ (n fuel i so oo : Nat), n < fuel → i + 32 * (n + 1) ≤ stride →
+      (⟨.sym, so + 32 * n + 31 * stride, 32, .read, 1⟩ : Access) ∈
+        stripeLoop none false L stride 32 fuel i so oo := by
+  obtain ⟨-, -, hsi, -, -, -, -, -⟩ := stripe_table
+  have h31 : ((31, 31) : Nat × Nat) ∈ Gen.Avx2Stripe.loads := by decide
+  intro n
+  induction n with
+  | zero =>
+    intro fuel i so oo hf hi
+    obtain ⟨f, rfl⟩ : ∃ f, fuel = f + 1 := ⟨fuel - 1, by omega⟩
+    simp only [stripeLoop, Bool.false_eq_true, if_false, stripeGuardOk, and_true]
+    rw [if_pos (by omega)]
+    apply List.mem_append_left; apply List.mem_append_left
+    simp only [List.mem_map]
+    exact ⟨(31, 31), h31, by simp⟩
+  | succ n ih =>
+    intro fuel i so oo hf hi
+    obtain ⟨f, rfl⟩ : ∃ f, fuel = f + 1 := ⟨fuel - 1, by omega⟩
+    simp only [stripeLoop, Bool.false_eq_true, if_false, stripeGuardOk, and_true]
+    rw [if_pos (by omega)]
+    apply List.mem_append_right
+    rw [hsi]
+    have := ih f (i + 32) (so + 32) (oo + Gen.Avx2Stripe.outInc * 32) (by omega) (by omega)
+    have e : so + 32 + 32 * n + 31 * stride = so + 32 * (n + 1) + 31 * stride := by omega
+    rw [e] at this
+    exact this
+
+/-- **the striping defect, for all lengths**: the unchanged kernel is in bounds exactly when fewer than
+    32 rows exist (no block runs) or the padding `32·⌈L/32⌉ − L` does not exceed `⌈L/32⌉ mod 32`; in
+    particular it reads past the symbol buffer for every `L ≥ 993` whose row count is a multiple of
+    32 and that is not itself a multiple of 32 (993..1023, 2017..2047, …) -/
+theorem stripe_avx2_asIs_safe_iff (L : Nat) :
+    Safe (stripeSizes L) (stripeAvx2With none L) ↔
+      ((L + 31) / 32 < 32 ∨ 32 * ((L + 31) / 32) - L ≤ (L + 31) / 32 % 32) := by
+  obtain ⟨-, -, -, -, hstrict, -, hstride, hrow⟩ := stripe_table
+  constructor
+  · intro hsafe
+    by_cases hc : (L + 31) / 32 < 32 ∨ 32 * ((L + 31) / 32) - L ≤ (L + 31) / 32 % 32
+    · exact hc
+    · exfalso
+      have hL : L ≠ 0 := by omega
+      unfold stripeAvx2With at hsafe
+      rw [if_neg hL, hstrict, hstride] at hsafe
+      have hm := stripeLoop_asIs_mem L ((L + 31) / 32) ((L + 31) / 32 / 32 - 1) ((L + 31) / 32 + 1) 0 0 0
+        (by omega) (by omega)
+      have hb := (hsafe _ hm).1
+      have : (stripeSizes L) Buf.sym = L := rfl
+      simp only [this] at hb
+      omega
+  · intro hc
+    unfold stripeAvx2With
+    by_cases h0 : L = 0
+    · rw [if_pos h0]; exact Safe_nil _
+    · rw [if_neg h0, hstrict, hstride]
+      have := stripeLoop_safe_of none (stripeSizes L) L ((L + 31) / 32) rfl
+        (by show (L + 31) / 32 * rowB 32 1 = _; rw [hrow])
+        (by intro i hi h32 _; omega) ((L + 31) / 32 + 1) 0 (Nat.zero_mod 32)
+      simpa using this
+
+/-- every length from 993 to 1023 is affected (the `L = 993` of the sanitizer report is the first) -/
+example : ∀ L, 993 ≤ L → L ≤ 1023 → ¬ Safe (stripeSizes L) (stripeAvx2With none L) := by
+  intro L h1 h2 h
+  have := (stripe_avx2_asIs_safe_iff L).mp h
+  omega
 
 /-- non-vacuity: 2112 symbols (66 rows) run two complete blocks (128 accesses); 2100 symbols only one,
     the second block's last load would end at byte 2110 -/
@@ -510,6 +591,51 @@ theorem set_len_within_capacity (len additional cap n : Nat) (hcontract : len + 
 theorem from_rows_indices (n : Nat) : ∀ i ∈ List.range n, i < n := fun _ h => List.mem_range.mp h
 
 example : (fill 5 4 3).length = 24 ∧ (fill 43 1 2).length = 128 := by decide +kernel
+
+/-! ## the hand-mirrored loop structure, pinned to the source
+
+  The access models place each pointer variable by the kernel's loop structure: where it is
+  initialised (which row of which matrix, at which loop depth) and by how much it advances per
+  iteration (one row / one vector).  These statements of the source are regenerated into
+  `Gen.MemOps.*Init` / `*Step`; the equalities below are what LMV/Mem/Kernels.lean assumes.  A change
+  of a pointer initialisation or increment in the source changes the regenerated table and this
+  theorem no longer checks. -/
+theorem pointer_walks :
+    Gen.MemOps.encodeAvx2Init = [⟨"dst_ptr", "dst.as_mut_ptr()", 0⟩, ⟨"src_ptr", "seq.as_ptr()", 0⟩] ∧
+    Gen.MemOps.encodeAvx2Step = [⟨"dst_ptr", "STRIDE", 1⟩, ⟨"src_ptr", "STRIDE", 1⟩] ∧
+    Gen.MemOps.scoreF32Avx2PermuteInit = [⟨"pssmptr", "pssm[0].as_ptr()", 1⟩, ⟨"rowptr", "data[0].as_mut_ptr()", 0⟩, ⟨"seqptr", "seq.matrix()[i].as_ptr()", 1⟩] ∧
+    Gen.MemOps.scoreF32Avx2PermuteStep = [⟨"pssmptr", "pssm.stride()", 2⟩, ⟨"rowptr", "data.stride()", 1⟩, ⟨"seqptr", "seq.matrix().stride()", 2⟩] ∧
+    Gen.MemOps.scoreF32Avx2GatherInit = [⟨"pssmptr", "pssm[0].as_ptr()", 1⟩, ⟨"rowptr", "data[0].as_mut_ptr()", 0⟩, ⟨"seqptr", "seq.matrix()[i].as_ptr()", 1⟩] ∧
+    Gen.MemOps.scoreF32Avx2GatherStep = [⟨"pssmptr", "pssm.stride()", 2⟩, ⟨"rowptr", "data.stride()", 1⟩, ⟨"seqptr", "seq.matrix().stride()", 2⟩] ∧
+    Gen.MemOps.scoreU8Avx2ShuffleInit = [⟨"pssmptr", "pssm[0].as_ptr()", 1⟩, ⟨"rowptr", "data[0].as_mut_ptr()as*muti8", 0⟩, ⟨"seqptr", "seq.matrix()[i].as_ptr()", 1⟩] ∧
+    Gen.MemOps.scoreU8Avx2ShuffleStep = [⟨"pssmptr", "pssm.stride()", 2⟩, ⟨"rowptr", "data.stride()", 1⟩, ⟨"seqptr", "seq.matrix().stride()", 2⟩] ∧
+    Gen.MemOps.argmaxF32Avx2Init = [⟨"dataptr", "data[0].as_ptr()", 0⟩] ∧
+    Gen.MemOps.argmaxF32Avx2Step = [⟨"dataptr", "data.stride()", 1⟩] ∧
+    Gen.MemOps.maxF32Avx2Init = [⟨"dataptr", "data[0].as_ptr()", 0⟩] ∧
+    Gen.MemOps.maxF32Avx2Step = [⟨"dataptr", "data.stride()", 1⟩] ∧
+    Gen.MemOps.argmaxU8Avx2Init = [⟨"dataptr", "data[0].as_ptr()", 0⟩] ∧
+    Gen.MemOps.argmaxU8Avx2Step = [⟨"dataptr", "data.stride()", 1⟩] ∧
+    Gen.MemOps.maxU8Avx2Init = [⟨"dataptr", "data[0].as_ptr()", 0⟩] ∧
+    Gen.MemOps.maxU8Avx2Step = [⟨"dataptr", "data.stride()", 1⟩] ∧
+    Gen.MemOps.encodeSse2Init = [⟨"dst_ptr", "dst.as_mut_ptr()", 0⟩, ⟨"src_ptr", "seq.as_ptr()", 0⟩] ∧
+    Gen.MemOps.encodeSse2Step = [⟨"dst_ptr", "STRIDE", 1⟩, ⟨"src_ptr", "STRIDE", 1⟩] ∧
+    Gen.MemOps.scoreSse2Init = [⟨"dataptr", "seq.matrix()[i].as_ptr().add(offset)", 2⟩, ⟨"pssmptr", "pssm[0].as_ptr()", 2⟩, ⟨"rowptr", "data[0].as_mut_ptr().add(offset)", 1⟩] ∧
+    Gen.MemOps.scoreSse2Step = [⟨"dataptr", "seq.matrix().stride()", 3⟩, ⟨"pssmptr", "pssm.stride()", 3⟩, ⟨"rowptr", "data.stride()", 2⟩] ∧
+    Gen.MemOps.argmaxSse2Init = [⟨"dataptr", "data[0].as_ptr().add(offset)", 1⟩, ⟨"outptr", "output.as_mut_ptr().add(offset)", 1⟩] ∧
+    Gen.MemOps.argmaxSse2Step = [⟨"dataptr", "data.stride()", 2⟩] := by
+  decide
+
+/-- the stack arrays the kernels spill to through raw pointers, as declared in the source: their
+    sizes are the `stack` sizes of the theorems above (`[u32; 32]` = 128 bytes, `[f32; 8]` = 32,
+    `[u16; 32]` = 64, `[u8; 32]` = 32, `[u8; 16]` = 16, `GenericArray<u32, C>` = `4·C`) -/
+theorem stack_arrays :
+    Gen.MemOps.argmaxF32Avx2Arrays = [("x", "u32", "32")] ∧ Gen.MemOps.maxF32Avx2Arrays = [("x", "f32", "8")] ∧
+    Gen.MemOps.argmaxU8Avx2Arrays = [("x", "u16", "32")] ∧ Gen.MemOps.maxU8Avx2Arrays = [("x", "u8", "32")] ∧
+    Gen.MemOps.encodeSse2Arrays = [("x", "u8", "16")] ∧ Gen.MemOps.argmaxSse2Arrays = [("outptr", "u32", "C")] ∧
+    Gen.MemOps.encodeAvx2Arrays = [] ∧ Gen.MemOps.scoreF32Avx2PermuteArrays = [] ∧
+    Gen.MemOps.scoreF32Avx2GatherArrays = [] ∧ Gen.MemOps.scoreU8Avx2ShuffleArrays = [] ∧
+    Gen.MemOps.scoreSse2Arrays = [] := by
+  decide
 
 /-! ## the safe public API: every kernel run of every entry point, on every backend and arm -/
 
